@@ -150,8 +150,23 @@ func smoothJoinSubject2(rng *rand.Rand) *subject {
 	desc := ""
 	var hints []C2
 	minSize := math.Inf(1)
+	aligned := n >= 2 && rng.Intn(3) == 0
+	var top float64
+	axis := rng.Intn(2)
 	for i := range ops {
 		ops[i] = randSDFOperand2(rng, true)
+		if aligned {
+			// rects with a common top along one axis that overlap along the other (see the 3D version)
+			if i == 0 {
+				top = rng.NormFloat64()
+			}
+			la := [2]float64{-0.5 - rng.Float64(), -0.5 - rng.Float64()}
+			ha := [2]float64{0.5 + rng.Float64(), 0.5 + rng.Float64()}
+			ha[axis] = top
+			la[axis] = top - 0.4 - rng.Float64()
+			lo, hi := model2d.XY(la[0], la[1]), model2d.XY(ha[0], ha[1])
+			ops[i] = sdfOperand2{&model2d.Rect{MinVal: lo, MaxVal: hi}, []C2{lo.Mid(hi)}, 0.4, fmt.Sprintf("Rect{%v %v}", lo, hi)}
+		}
 		desc += ops[i].desc + "; "
 		hints = append(hints, ops[i].hints...)
 		minSize = math.Min(minSize, ops[i].size)
@@ -159,6 +174,18 @@ func smoothJoinSubject2(rng *rand.Rand) *subject {
 	radius := minSize * logUniform(rng, -1.5, 0.5)
 	if rng.Intn(8) == 0 {
 		radius = 0
+	}
+	if aligned {
+		desc = "aligned-tops; " + desc
+		for k := 0; k < 6; k++ {
+			pa := [2]float64{0.4 * rng.NormFloat64(), 0.4 * rng.NormFloat64()}
+			f := rng.Float64()
+			if k%2 == 0 {
+				f = 1 - 0.03*rng.Float64()
+			}
+			pa[axis] = top + radius*(1-math.Sqrt(0.5))*f
+			hints = append(hints, model2d.XY(pa[0], pa[1]))
+		}
 	}
 	if rng.Intn(2) == 0 {
 		sdfs := make([]model2d.SDF, n)
